@@ -108,7 +108,10 @@ def rand_analysis_kw(rng, analysis):
 def rand_config(rng, classes=None, amorph_share=0.12, allow_input=True, max_period=40):
     if classes is None and rng.random() < amorph_share:
         an = rng.choice(ANALYSES)
-        return {"cls": "Amorph", "analysis": an, "kw": rand_analysis_kw(rng, an)}
+        kw = rand_analysis_kw(rng, an)
+        if rng.random() < 0.25:
+            kw["round_value"] = rng.choice([0, 2, 6])
+        return {"cls": "Amorph", "analysis": an, "kw": kw}
     cls = rng.choice(classes or CLASSES)
     if cls == "Amorph":
         an = rng.choice(ANALYSES)
